@@ -89,8 +89,8 @@ class WebsocketFrame:
         self.payload_length = byte & 0b01111111
 
     def build(self) -> bytes:
-        if self.payload_length is None and self.data:
-            self.payload_length = len(self.data)
+        if self.payload_length is None:
+            self.payload_length = len(self.data) if self.data else 0
         raw = io.BytesIO()
         raw.write(
             struct.pack(
@@ -121,7 +121,7 @@ class WebsocketFrame:
         elif self.payload_length < 1 << 64:
             raw.write(
                 struct.pack(
-                    '!BHQ',
+                    '!BQ',
                     (1 << 7 if self.masked else 0) | 127,
                     self.payload_length,
                 ),
@@ -131,10 +131,12 @@ class WebsocketFrame:
                 f'Invalid payload_length { self.payload_length},'
                 f'maximum allowed { 1 << 64}',
             )
-        if self.masked and self.data:
+        if self.masked:
+            # Masking key is present whenever mask bit is set, even for empty payloads
             mask = secrets.token_bytes(4) if self.mask is None else self.mask
             raw.write(mask)
-            raw.write(self.apply_mask(self.data, mask))
+            if self.data:
+                raw.write(self.apply_mask(self.data, mask))
         elif self.data:
             raw.write(self.data)
         return raw.getvalue()
@@ -160,7 +162,7 @@ class WebsocketFrame:
             self.mask = raw[cur: cur + 4]
             cur += 4
 
-        assert self.payload_length
+        assert self.payload_length is not None
         self.data = raw[cur: cur + self.payload_length]
         cur += self.payload_length
         if self.masked:
